@@ -80,6 +80,7 @@ type PeerOpts struct {
 	NoWillReply    bool
 	AckDelay       time.Duration // REGACK / PUBACK / PUBREC / PUBCOMP are sent this much later (virtual time)
 	DupRegack      time.Duration // > 0: every REGACK is sent a second time this much after the first copy
+	LongForm       int           // datagrams of the client use the 3-byte Length form: 1 all, 2 all but CONNECT, 3 DISCONNECT only
 }
 
 // peerHandler returns the automatic responder of the scripted client: it
@@ -145,6 +146,10 @@ func runScript(t *testing.T, c *rt.Case, cfg world.GWConfig, bcfg world.BrokerCf
 		w := world.New(cfg)
 		b := world.NewBroker(bcfg)
 		s := w.NewSession(peerHandler(po), b.Handler())
+		s.LongForm = po.LongForm
+		if po.LongForm > 0 {
+			w.Tr.Add(s.ID, world.Note, nil, "the client uses the 3-byte Length form for "+[]string{"", "every datagram", "every datagram but CONNECT", "DISCONNECT"}[po.LongForm])
+		}
 		if bcfg.EnforceKA {
 			b.Attach(s)
 		}
